@@ -180,6 +180,9 @@ static void k_wrap_iround(const V1& in, vf::Ctx& c){
 	glm::vec4 v = mk(in.x); glm::vec4 gc = glm::clamp(v), gr = glm::repeat(v), gmc = glm::mirrorClamp(v), gmr = glm::mirrorRepeat(v);
 	bool dom = true; for(int l = 0; l < 4; l++) if(!(in.x[l] >= 0.0f) || !(in.x[l] <= 2147483520.0f)) dom = false;   // iround/uround: every lane >= 0 (asserted by glm) and representable
 	glm::ivec4 gi(0); glm::uvec4 gu(0); if(dom){ gi = glm::iround(v); gu = glm::uround(v); c.cls("iround-domain"); }
+	// uround alone is defined up to the largest float below 2^32: doubled lanes exercise [2^31, 2^32) (every lane is an exact integer there)
+	{ bool udom = true; float d[4]; for(int l = 0; l < 4; l++){ d[l] = in.x[l] * 2.0f + 2147483648.0f; if(!(in.x[l] >= 0.0f) || !(d[l] <= 4294967040.0f)) udom = false; }
+		if(udom){ glm::uvec4 g2 = glm::uround(glm::vec4(d[0], d[1], d[2], d[3])); c.cls("uround-domain[2^31,2^32)"); for(int l = 0; l < 4; l++){ unsigned w = (unsigned)d[l]; if(g2[l] != w) c.fail("uround:2^31<=x<2^32:returns-other", (unsigned)g2[l], w); } } }
 	for(int l = 0; l < 4; l++){ float x = in.x[l]; if(!fin(x)) continue; const bool wrapdom = !(kSimd && r_abs(x) > 4194304.0f);
 		bool odd; FracCmp f = r_fraccmp(x, odd); float a = r_abs(x), rest = a - r_trunc(a);
 		float wc = x < 0.0f ? 0.0f : x > 1.0f ? 1.0f : x, wr = x - r_floor(x), wmr = odd ? 1.0f - rest : rest;
